@@ -23,7 +23,7 @@ from core import Exn, call, cstr, cbool, clist
 from reqgen import KINDS, KIND_ORDER, BINDINGS, NOW, cfgspec, rspec
 
 CLAIM = {
-    "text": "Coq theorems (Props/C10.v, 28, all closed) over an executable model of Entity._parse_request (receiver addresses per service/binding/context with the aa/aq/pdp fallback and the odd-endpoint-spec branch of Config.endpoint, accepted_time_diff, the section the want_* options are read from, must = want_authn_requests_signed or want_authn_requests_only_with_valid_cert), Entity.unravel per binding incl. the SOAP envelope reader, Request._loads (every non-TypeError exception of the signature check ends in IncorrectlySigned; valid_instance), SecurityContext.correctly_signed_message (root element test, unsigned-and-must, signed -> _check_signature: certificate selection of C03, per-certificate tool runs with the symbolic tool semantics of Model/Xmlsec.v, certificate validation) and Request._verify (Version, Destination, IssueInstant window). PROVED for every configuration, request kind, binding and received text, and for both states of the C01 pre-check (C10_handed_over_only_if_valid): a request is handed to the application only if the text is a clean encoding of it, its root element is the expected request type of that entry point, valid_instance passed, Version is 2.0, Destination is absent/empty or one of the receiver's own addresses for that service and binding (or the receiver has none), IssueInstant lies in [now-86400-slack, now+86400+slack), a signature child on the root verified (tool semantics, either duplicate-ID policy) under a candidate certificate of the issuer that also passed certificate validation - with only_use_keys_in_metadata (the default) a certificate the metadata holds for the issuer with use signing - and want_authn_requests_signed / only_with_valid_cert imply a signature is present; C10_own_options_honoured restates the last clause for the options CONFIGURED in the section of the entity's own type (idp or aa). These are theorems about the model of the library as repaired by three fix: commits in /repo: 0b54cc6b (F16: _check_signature insists on a verified signature whatever only_valid_cert says; C10_before_fix_refuted keeps the witness, C10_repair_keeps_the_rest shows nothing else changes) and dace676c (an attribute authority's own want_* options are read; C10_options_before_fix_refuted keeps the witness), and f6d4380b (the C01 enveloping pre-check; Model/Request.v PRECHECK_IN_FORCE = true, C10_code_state). PROVED for today's code state, WITH the enveloping pre-check of the C01 repair (pre = true): the verified signature is the root's only Signature child, refers to the root's ID and digests exactly the root without it (C10_signature_covers_request), hence every modification of a signed request is refused when the sender's keys signed nothing else (C10_tamper). For the library before f6d4380b (no pre-check) that half is REFUTED by a wrapping witness (C10_covers_refuted_without_precheck) and proved under the hypothesis that the pre-check predicate holds of the received document (C10_covers_partial, C10_tamper_partial). C10_table_is_documented: the entry-point table (method -> request class, msgtype, service, root tag accepted by <msgtype>_from_string, SOAP reader and its root tag, pass-through of the text and must), regenerated from the code by recording on every run, equals the table the model uses. The recorded table also says which of _loads / loads / _verify / verify / issue_instant_ok each request class resolves to a definition other than Request's own (none): there is ONE pipeline for all eight kinds. NO KIND-SPECIFIC EXCEPTION, proved over the kind parameter: the model's request document carries the kind-specific optional content of the root (d_opts: LogoutRequest NotOnOrAfter / Reason / SessionIndex, AuthnRequest Conditions / Subject / ForceAuthn / IsPassive / Scoping, the optional children of the queries and of ManageNameID / NameIDMapping requests, each dateTime with its value) and C10_blind_to_optional_content shows that for every kind, binding, configuration and text the outcome is unchanged when that content is replaced by any other; C10_no_kind_specific_exception is the refusal form of the full statement (stale / dated ahead / no instant, addressed elsewhere, unsigned-but-wanted, other version, schema-invalid, other root => handed over by no entry point, whatever it carries) and C10_future_not_on_or_after_does_not_excuse its instance for a NotOnOrAfter (or any other dateTime) ahead of now. LONG-LIVED RECEIVER, by induction over message sequences (C10_history, C10_history_handed_over_only_if_valid): whatever one receiver has handed over at any point of a sequence was handed over by _parse_request on that message alone, and ops1 ++ ops2 hands over what ops1 and ops2 do apart - earlier valid requests excuse nothing later. SCHEMA VALIDITY IS THE C13 JUDGEMENT, REQUIRED ATTRIBUTES PRESENT BUT EMPTY (Model/RequestValid.v, Props/C10.v (9)): the received document comes with the instance tree that <msgtype>_from_string makes of it (an attribute written X=\"\" is the member holding the empty value) and its validity is COMPUTED by the C13 model of validate.valid_instance (Model/Validate.v) over the schema tables regenerated from the working tree on this run (Gen/SchemaTables.v); C10_handed_over_only_if_valid_instance: handed over => valid_instance accepted that tree; C10_empty_required_attribute_refused: if the root or ANY node reachable below it through declared child members, at any depth, has a required attribute MISSING OR EMPTY, the request is handed over by no entry point, over no binding, under no configuration, signed or not, for every primitive-validator function (through C13_rejects on the actual tables); C10_empty_is_judged_as_absent: X=\"\" gets exactly the verdict and the _parse_request outcome of X absent; C10_history_only_valid_instances: the same for everything one long-lived receiver ever hands over; C10_empty_required_witness: on instance trees regenerated on this run (Gen/RequestInst.v) an enriched AuthnRequest is handed over, the same with ID=\"\", with Scoping/IDPList/IDPEntry ProviderID=\"\" and with ProviderID absent is refused NotValid. C10_undecodable_refused, C10_wrong_root_refused, C10_witness, C10_logout_witness (non-vacuity). Tie to the code: on every run the real entry points (8 parse_* methods on IdP / AA / SP entities plus Saml2Client.handle_logout_request) and the model are run on the same ~18 300 cases (every request kind WITH each optional attribute / child of that kind alone and combined - 58 option sets incl. NotOnOrAfter 1 s / 1 h / 2 d / 10 y ahead, now and past, Conditions windows open / wide / past / future / one-sided, SubjectConfirmationData windows - x Redirect / POST / SOAP x IssueInstant at +-(86400+allowance) -2..+2 s x Destination swapped with another own endpoint / foreign / near miss x Version x dropped ID x want / only_valid_cert with unsigned, signed, signed-and-stale, signed-and-misaddressed, wrong key, edited, stripped, on IdP, stand-alone AA, SP and through handle_logout_request, the valid request first and again last on each long-lived receiver; shuffled valid / refusable sequences with re-sent texts on one object per kind and binding; and: all 8 request kinds, Redirect/POST/SOAP and the odd bindings, signed/unsigned/wrong key x want_authn_requests_signed x only_with_valid_cert x validate_certificate x only_use_keys_in_metadata x 7 metadata key layouts, 17 mutation operators on signed requests and 33 wrapping variants under both duplicate-ID policies, genuinely signed requests whose Extensions carry the request's ID (or a near miss) on an element of another name, destination variants incl. near misses over 8 endpoint layouts, IssueInstant around both edges for 4 allowances, versions, schema-invalid requests, wrong roots, truncated/garbled encodings and SOAP shapes, seeded random combinations; and EVERY REQUIRED ATTRIBUTE reachable from each request kind - 131 sites walked over the reflected schema tables to depth 6, from root ID / Version / IssueInstant / Resource down to Scoping/IDPList/IDPEntry ProviderID, Subject/SubjectConfirmation Method, Attribute Name, Action Namespace, Evidence/Assertion and its statements, EncryptedID/.../EncryptionMethod Algorithm and CipherReference URI, each also written down by hand from the schemas - as good value / X=\"\" / X absent on the same enriched request, unsigned and genuinely signed with the attribute already empty, over Redirect / POST / SOAP, on IdP, AA, SP and through handle_logout_request, ~1 500 cases that ALSO run through the second correspondence unit parse_request_judged where validity is computed by the C13 model from the instance tree of the text), compared at handed-over/refused granularity; oracle keys of requests with optional content name the kind and the attributes.",
+    "text": "Coq theorems (Props/C10.v, 39, all closed) over an executable model of Entity._parse_request (receiver addresses per service/binding/context with the aa/aq/pdp fallback and the odd-endpoint-spec branch of Config.endpoint, accepted_time_diff, the section the want_* options are read from, must = want_authn_requests_signed or want_authn_requests_only_with_valid_cert), Entity.unravel per binding incl. the SOAP envelope reader, Request._loads (every non-TypeError exception of the signature check ends in IncorrectlySigned; valid_instance), SecurityContext.correctly_signed_message (root element test, unsigned-and-must, signed -> _check_signature: certificate selection of C03, per-certificate tool runs with the symbolic tool semantics of Model/Xmlsec.v, certificate validation) and Request._verify (Version, Destination, IssueInstant window). PROVED for every configuration, request kind, binding and received text, and for both states of the C01 pre-check (C10_handed_over_only_if_valid): a request is handed to the application only if the text is a clean encoding of it, its root element is the expected request type of that entry point, valid_instance passed, Version is 2.0, Destination is absent/empty or one of the receiver's own addresses for that service and binding (or the receiver has none), IssueInstant lies in [now-86400-slack, now+86400+slack), a signature child on the root verified (tool semantics, either duplicate-ID policy) under a candidate certificate of the issuer that also passed certificate validation - with only_use_keys_in_metadata (the default) a certificate the metadata holds for the issuer with use signing - and want_authn_requests_signed / only_with_valid_cert imply a signature is present; C10_own_options_honoured restates the last clause for the options CONFIGURED in the section of the entity's own type (idp or aa). These are theorems about the model of the library as repaired by three fix: commits in /repo: 0b54cc6b (F16: _check_signature insists on a verified signature whatever only_valid_cert says; C10_before_fix_refuted keeps the witness, C10_repair_keeps_the_rest shows nothing else changes) and dace676c (an attribute authority's own want_* options are read; C10_options_before_fix_refuted keeps the witness), and f6d4380b (the C01 enveloping pre-check; Model/Request.v PRECHECK_IN_FORCE = true, C10_code_state). PROVED for today's code state, WITH the enveloping pre-check of the C01 repair (pre = true): the verified signature is the root's only Signature child, refers to the root's ID and digests exactly the root without it (C10_signature_covers_request), hence every modification of a signed request is refused when the sender's keys signed nothing else (C10_tamper). For the library before f6d4380b (no pre-check) that half is REFUTED by a wrapping witness (C10_covers_refuted_without_precheck) and proved under the hypothesis that the pre-check predicate holds of the received document (C10_covers_partial, C10_tamper_partial). C10_table_is_documented: the entry-point table (method -> request class, msgtype, service, root tag accepted by <msgtype>_from_string, SOAP reader and its root tag, pass-through of the text and must), regenerated from the code by recording on every run, equals the table the model uses. The recorded table also says which of _loads / loads / _verify / verify / issue_instant_ok each request class resolves to a definition other than Request's own (none): there is ONE pipeline for all eight kinds. NO KIND-SPECIFIC EXCEPTION, proved over the kind parameter: the model's request document carries the kind-specific optional content of the root (d_opts: LogoutRequest NotOnOrAfter / Reason / SessionIndex, AuthnRequest Conditions / Subject / ForceAuthn / IsPassive / Scoping, the optional children of the queries and of ManageNameID / NameIDMapping requests, each dateTime with its value) and C10_blind_to_optional_content shows that for every kind, binding, configuration and text the outcome is unchanged when that content is replaced by any other; C10_no_kind_specific_exception is the refusal form of the full statement (stale / dated ahead / no instant, addressed elsewhere, unsigned-but-wanted, other version, schema-invalid, other root => handed over by no entry point, whatever it carries) and C10_future_not_on_or_after_does_not_excuse its instance for a NotOnOrAfter (or any other dateTime) ahead of now. LONG-LIVED RECEIVER, by induction over message sequences (C10_history, C10_history_handed_over_only_if_valid): whatever one receiver has handed over at any point of a sequence was handed over by _parse_request on that message alone, and ops1 ++ ops2 hands over what ops1 and ops2 do apart - earlier valid requests excuse nothing later. SCHEMA VALIDITY IS THE C13 JUDGEMENT, REQUIRED ATTRIBUTES PRESENT BUT EMPTY (Model/RequestValid.v, Props/C10.v (9)): the received document comes with the instance tree that <msgtype>_from_string makes of it (an attribute written X=\"\" is the member holding the empty value) and its validity is COMPUTED by the C13 model of validate.valid_instance (Model/Validate.v) over the schema tables regenerated from the working tree on this run (Gen/SchemaTables.v); C10_handed_over_only_if_valid_instance: handed over => valid_instance accepted that tree; C10_empty_required_attribute_refused: if the root or ANY node reachable below it through declared child members, at any depth, has a required attribute MISSING OR EMPTY, the request is handed over by no entry point, over no binding, under no configuration, signed or not, for every primitive-validator function (through C13_rejects on the actual tables); C10_empty_is_judged_as_absent: X=\"\" gets exactly the verdict and the _parse_request outcome of X absent; C10_history_only_valid_instances: the same for everything one long-lived receiver ever hands over; C10_empty_required_witness: on instance trees regenerated on this run (Gen/RequestInst.v) an enriched AuthnRequest is handed over, the same with ID=\"\", with Scoping/IDPList/IDPEntry ProviderID=\"\" and with ProviderID absent is refused NotValid. THE PROCESS TIME ZONE AND THE CLOCK SOURCES (Model/RequestWindow.v, Props/C10.v (10)): Request.issue_instant_ok on the TEXT of IssueInstant through Model/TimeUtil.v (strptime / str_to_time, calendar.timegm, time.gmtime, datetime.timetuple, tuple order) with the clock of the process explicit (the instant; what the local wall clock is ahead of UTC); C10_window_text: the verdict on a text denoting the tuple c is now-86400-slack <= timegm c < now+86400+slack with now the UTC instant; C10_window_verdict_is_zone_free: it is a function of (now_utc, text, allowance) only - processes in different zones whose clocks read the same instant agree on every text; C10_window_text_is_the_request_window: it is the IssueInstant clause of the request model; C10_window_never_beyond_a_day: accepted => the text parses and lies strictly within a day plus allowance of the UTC now, in every zone; C10_window_of_stamped_instant; REFUTED for the three zone-dependent variants (not the code): mktime(gmtime()) as now (C10_window_mktime_now_refuted: in New York a request dated a day and an hour ahead passes, in Tokyo one dated 23 h ahead is refused), datetime.now() as now (C10_window_local_now_refuted), mktime instead of timegm on the text (C10_window_mktime_text_refuted); C10_window_variants_shift gives their windows in general (shifted by the zone) and C10_window_variants_partial shows that under UTC they ARE the code. C10_undecodable_refused, C10_wrong_root_refused, C10_witness, C10_logout_witness (non-vacuity). Tie to the code: TIME ZONES - a slice of the request families (authn over Redirect / POST / SOAP, logout over SOAP / POST, attribute query over SOAP on the IdP, logout on the SP, attribute query on a stand-alone AA; signed towards a receiver that wants signatures, and unsigned; accepted_time_diff 0 and 60) with IssueInstant at now +-(1 day + allowance) +- 0 s, 1 s, 1 h, 4 h, 5 h, 9 h, 14 h runs with os.environ TZ = UTC, Asia/Tokyo, America/New_York, Pacific/Kiritimati, Europe/London (time.tzset; self-checked against known offsets) three times: (A) under a ZONE-FAITHFUL controlled clock (harness/c10_tz.py ZoneClock: gmtime / utcnow answer in UTC, localtime / now / today / fromtimestamp / strftime in the zone, patched into time_util AND request) at the summer reference instant through the model correspondence and the ordinary oracle, each verdict compared with the UTC verdict; (B) the same at a winter instant (New York -5 h, London 0 h) against the window by specification; (C) with NOTHING patched, IssueInstant computed relative to the real time.time(), the ends kept 5 s away and the call bracketed by two clock reads; plus the correspondence unit issue_instant_ok_texts: the real Request.issue_instant_ok on ~1 100 IssueInstant texts (every spelling str_to_time takes or refuses) under each zone and season against window_text. Oracle keys verdict-depends-on-process-time-zone:<zone>:<side>-<in|out>-<distance>:a<allowance> and stale-or-future-handed-over:tz=<zone>:.... Further: on every run the real entry points (8 parse_* methods on IdP / AA / SP entities plus Saml2Client.handle_logout_request) and the model are run on the same ~18 300 cases (every request kind WITH each optional attribute / child of that kind alone and combined - 58 option sets incl. NotOnOrAfter 1 s / 1 h / 2 d / 10 y ahead, now and past, Conditions windows open / wide / past / future / one-sided, SubjectConfirmationData windows - x Redirect / POST / SOAP x IssueInstant at +-(86400+allowance) -2..+2 s x Destination swapped with another own endpoint / foreign / near miss x Version x dropped ID x want / only_valid_cert with unsigned, signed, signed-and-stale, signed-and-misaddressed, wrong key, edited, stripped, on IdP, stand-alone AA, SP and through handle_logout_request, the valid request first and again last on each long-lived receiver; shuffled valid / refusable sequences with re-sent texts on one object per kind and binding; and: all 8 request kinds, Redirect/POST/SOAP and the odd bindings, signed/unsigned/wrong key x want_authn_requests_signed x only_with_valid_cert x validate_certificate x only_use_keys_in_metadata x 7 metadata key layouts, 17 mutation operators on signed requests and 33 wrapping variants under both duplicate-ID policies, genuinely signed requests whose Extensions carry the request's ID (or a near miss) on an element of another name, destination variants incl. near misses over 8 endpoint layouts, IssueInstant around both edges for 4 allowances, versions, schema-invalid requests, wrong roots, truncated/garbled encodings and SOAP shapes, seeded random combinations; and EVERY REQUIRED ATTRIBUTE reachable from each request kind - 131 sites walked over the reflected schema tables to depth 6, from root ID / Version / IssueInstant / Resource down to Scoping/IDPList/IDPEntry ProviderID, Subject/SubjectConfirmation Method, Attribute Name, Action Namespace, Evidence/Assertion and its statements, EncryptedID/.../EncryptionMethod Algorithm and CipherReference URI, each also written down by hand from the schemas - as good value / X=\"\" / X absent on the same enriched request, unsigned and genuinely signed with the attribute already empty, over Redirect / POST / SOAP, on IdP, AA, SP and through handle_logout_request, ~1 500 cases that ALSO run through the second correspondence unit parse_request_judged where validity is computed by the C13 model from the instance tree of the text), compared at handed-over/refused granularity; oracle keys of requests with optional content name the kind and the attributes.",
     "note": "Trusted: Coq kernel + vm_compute; the hand-written model is tied to the code by testing (the correspondence above), not proof; signatures are symbolic (a signature node records key, intactness and the digested content) and every statement about verification is relative to the stand-in tool's node-selection semantics (real xmlsec1 is absent); certificate-chain validation (cert.py) and the transport decoders (C14) enter the model as classified inputs computed by the harness itself; so does valid_instance (C13) for every family but empty-required / schema-invalid, where it is the C13 model run on the instance tree of the text - that tree is read with the library's own parser (C12) and, in the model, is an input independent of the symbolic twin (the harness derives both from the same text); the primitive validators the C13 model does not contain (dateTime, anyURI, base64Binary) are taken as accepting: the judged families hold only well-formed values of those types. Three defects found by this check were repaired in /repo (known_findings.json 'fixed'): F16 (0b54cc6b), the aa option section (dace676c) and request wrapping (5 oracle keys wrapped-request-handed-over:*, repaired with C01's pre-check f6d4380b); the oracle keys stay in the harness and report them again if they return. Only tested, not proved: agreement of model and code; the IssueInstant edges exactly at now-86400-slack and now+86400+slack are run but not compared; a Redirect-binding query-string signature is never seen by _parse_request (the application must call verify_redirect_signature, property C15); an IdP serving attribute queries through the aa/aq/pdp endpoint fallback reads the want options of its idp section only (not generated).",
     "technique": "machine-checked proof (Coq) + regenerated-table obligation + model/implementation correspondence + implementation-level oracle",
 }
@@ -32,6 +32,7 @@ TRUSTED = [
     "Gen/RequestTable.v is regenerated by RECORDING the code (harness/translate_c10.py): each entry point is called on a stub that records what it hands to _parse_request, each Request subclass's signature_check on a recording SecurityContext, the real correctly_signed_message and SOAP readers on 28 candidate roots",
     "the stand-in xmlsec1 (harness/tools/xmlsec_core.py) signs and verifies; its node-selection semantics = Model/Xmlsec.v tool_verify (duplicate-ID policies fail / first-wins both run); symbolic cryptography in the model",
     "Model/RequestValid.v: d_valid := Model/Validate.v valid_instance (C13, modelled by hand, tied by C13's own correspondence) on the instance tree; Gen/SchemaTables.v and Gen/RequestInst.v are regenerated on every C10 run (harness/c10_empty.py, translate_schema.py); which attributes are REQUIRED is also written down by hand (c10_empty.DOCUMENTED) and compared with the reflected tables",
+    "Model/RequestWindow.v (hand-written): the process clock as (instant, seconds the zone is ahead of UTC - constant: exact away from zone transitions); the clock functions of time / datetime as functions of it; harness/c10_tz.py ZoneClock stands in for the clock at a controlled instant (self-checked through the patched names), the real-clock pass uses no stand-in",
     "oracle inputs computed by the harness itself, not by the code under test: the symbolic twin of each document (who signed which content), Version / Destination / IssueInstant / Issuer read from the XML, schema validity by construction of the mutation, decoder class of each text by Python's base64/zlib/ElementTree, certificates accepted by certificate validation (OpenSSLWrapper.verify, not modelled; in this environment it accepts none)",
 ]
 ASSUMPTIONS = [
@@ -168,6 +169,7 @@ class Cases(object):
         if accepted and not hasattr(got, "message"):
             accepted = False
             got = Exn("NotARequestObject")
+        self.last = accepted
         if EXACT and not via:
             impl = True if accepted else got
         else:
@@ -924,6 +926,12 @@ def run(ctx):
         fam_empty_required(C, ctx.quick)
         fam_history(C, ctx.quick, ctx.rng)
         fam_random(C, ctx.quick, ctx.rng)
+    # the process time zone and the clock sources (harness/c10_tz.py): own clocks, outside the controlled one above
+    import c10_tz
+    c10_tz.fam_zone_controlled(C, ctx.quick)
+    c10_tz.fam_zone_winter(C, ctx.quick)
+    c10_tz.fam_zone_real_clock(C, ctx.quick)
+    c10_tz.unit_window_text(ctx, ctx.quick)
     ctx.exhaustive = False
     # the regenerated table against the harness's own copy of the documented one (the Coq theorem compares it with the model's)
     rows = {r[0].split(".")[1]: r for r in ctx.extra.get("request_table", [])}
@@ -961,6 +969,9 @@ def replay(ctx, payload):
         print("no concrete input in this replay file (broken obligation / correspondence): see its fields")
         print(json.dumps({k: v for k, v in payload.items() if k != "input"}, indent=1)[:3000])
         return 0
+    if inp.get("tz"):
+        import c10_tz
+        return c10_tz.replay(inp)
     cs, kind, bname, text = inp["cfg"], inp["kind"], inp["binding"], inp["text"]
     print("replay: %s over %s, configuration %s, mutation %s, note %s" % (kind, bname, cs, inp.get("mutation"), inp.get("note")))
     with env.Clock(NOW):
